@@ -45,6 +45,7 @@ THEOREMS = [
     "Opacus.C18.ddp_step_indep_of_other_noise",
     "Opacus.C18.broadcast_sync",
     "Opacus.C18.single_release_form",
+    "Opacus.C18.average_gradients_eq",
     "Opacus.C18.hooks_step_asCoded",
     "Opacus.C18.hooks_step_asCoded_ne_union",
     "Opacus.C18.hooks_step_eq_union_step_partial",
@@ -555,8 +556,22 @@ def run_all(ctx, cfgs_by_W):
 
 def check_against_model(ctx, todo, variant):
     t0 = time.time()
-    replies = ctx.lean_driver("C18", [driver_line(c, r, s_, variant) for c, r, s_ in todo])
-    ctx.log(f"lean driver: {len(todo)} requests in {time.time()-t0:.1f}s")
+    avg_cfgs = [(c, r) for c, r, _ in todo if impl_error(r) is None]
+    avg_lines = ["avg " + " ".join([str(c["W"]), "2", str(c["dims"][0]), str(c["dims"][1])] + [f2h(v) for rk in range(c["W"]) for part in c["init"][rk] for v in part]) for c, _ in avg_cfgs]
+    replies = ctx.lean_driver("C18", [driver_line(c, r, s_, variant) for c, r, s_ in todo] + avg_lines)
+    ctx.log(f"lean driver: {len(todo) + len(avg_lines)} requests in {time.time()-t0:.1f}s")
+    for (cfg, res), rep in zip(avg_cfgs, replies[len(todo):]):
+        D, W = sum(cfg["dims"]), cfg["W"]
+        mv = [h2f(x) for x in rep.split()] if not rep.startswith("bad") else []
+        ok = len(mv) == W * D and all(vec_eq(flat2(res[r].get("avg_probe")), mv[r * D : (r + 1) * D], False) for r in range(W))
+        ctx.count("average_gradients-probe")
+        if not ok:
+            impl = [res[r].get("avg_probe") or res[r].get("avg_probe_error") for r in range(W)]
+            mean = [sum(v) / W for v in zip(*[[x for part in cfg["init"][r] for x in part] for r in range(W)])]
+            bad = [r for r in range(W) if not vec_eq(flat2(res[r].get("avg_probe")), mean, False)]
+            ctx.mismatch("average_gradients", {"W": W, "dims": cfg["dims"], "init": cfg["init"]}, impl, rep[:300],
+                         oracle=lambda c, bad=bad, impl=impl, mean=mean: (f"C18:average_gradients:W={W}", f"average_gradients leaves {impl} on the ranks, the mean over workers is {mean}", {"ranks_off": bad}) if bad else None)
+    replies = replies[: len(todo)]
     for (cfg, res, single), rep in zip(todo, replies):
         m = parse_reply(cfg, rep)
         diffs = compare_with_model(cfg, res, single, m)
